@@ -73,6 +73,7 @@ type mapRead struct {
 	loc  string
 	pos  token.Pos
 	text string
+	typ  string // type of the map (local reads): names the finding independently of the index text
 }
 
 // EscLoc is a caller-visible location filled in map order and not sorted in the function.
@@ -527,7 +528,7 @@ func (oa *OrderAnalysis) analyse(fs *fnSummary, final bool) []*MapRange {
 					if lk, _, _ := locOf(info, lm.Stmt.X); lk == k && lm.IsMap {
 						lm.Effects = append(lm.Effects, Effect{Kind: "mutates-ranged-map", Loc: k, Pos: x.Pos(), Text: types.ExprString(l)})
 					}
-					lm.directStores = append(lm.directStores, mapRead{k, x.Pos(), types.ExprString(l)})
+					lm.directStores = append(lm.directStores, mapRead{k, x.Pos(), types.ExprString(l), ""})
 				}
 			}
 			for i, r := range x.Rhs {
@@ -773,7 +774,7 @@ func (oa *OrderAnalysis) analyse(fs *fnSummary, final bool) []*MapRange {
 					if lk, _, _ := locOf(info, lm.Stmt.X); lk == k+path && lm.IsMap {
 						lm.Effects = append(lm.Effects, Effect{Kind: "mutates-ranged-map", Loc: k + path, Pos: x.Pos(), Text: types.ExprString(x.Fun) + " inserts into " + types.ExprString(arg) + path, Callee: fn.Name()})
 					}
-					lm.callStores = append(lm.callStores, mapRead{k + path, x.Pos(), types.ExprString(x.Fun) + " inserts into " + types.ExprString(arg) + path})
+					lm.callStores = append(lm.callStores, mapRead{k + path, x.Pos(), types.ExprString(x.Fun) + " inserts into " + types.ExprString(arg) + path, ""})
 				}
 			}
 			for g := range cf.appendsGlobal {
@@ -823,14 +824,14 @@ func (oa *OrderAnalysis) analyse(fs *fnSummary, final bool) []*MapRange {
 				if k, root, _ := locOf(info, x.X); root != nil {
 					if rk := oa.rootKind(p, fd, nil, root); rk == RootParam || rk == RootGlobal {
 						for _, lm := range loopStack {
-							lm.mapReads = append(lm.mapReads, mapRead{k, x.Pos(), types.ExprString(x)})
+							lm.mapReads = append(lm.mapReads, mapRead{k, x.Pos(), types.ExprString(x), ""})
 						}
 					} else {
 						// a map of the function itself: it carries a dependence for the loops it is
 						// declared outside of
 						for _, lm := range loopStack {
 							if oa.rootKind(p, fd, lm.Stmt, root) != RootLocalInner {
-								lm.localReads = append(lm.localReads, mapRead{k, x.Pos(), types.ExprString(x)})
+								lm.localReads = append(lm.localReads, mapRead{k, x.Pos(), types.ExprString(x), types.TypeString(info.TypeOf(x.X), func(*types.Package) string { return "" })})
 							}
 						}
 					}
@@ -1231,7 +1232,11 @@ func (oa *OrderAnalysis) analyse(fs *fnSummary, final bool) []*MapRange {
 			for _, d := range m.directStores {
 				if d.loc == r.loc && d.text != r.text && !seenLC[r.loc] {
 					seenLC[r.loc] = true
-					addF(m, "loop-carried "+r.text, fmt.Sprintf("loop-carried dependence through a map: the body reads %s and stores %s in the same loop, so what one iteration finds depends on which iterations ran before it", r.text, d.text))
+					what := r.text
+					if r.typ != "" {
+						what = "local " + r.typ
+					}
+					addF(m, "loop-carried "+what, fmt.Sprintf("loop-carried dependence through a map: the body reads %s and stores %s in the same loop, so what one iteration finds depends on which iterations ran before it", r.text, d.text))
 				}
 			}
 			for _, w := range m.callStores {
